@@ -48,6 +48,8 @@ def stepC09 (st : DriverState) (fields : List String) : Option String :=
       let ps := ";".intercalate (e.params.map (fun p => s!"{p.1}={p.2}"))
       some s!"ok\t{e.cls}\t{ds}\t{ps}\t{e.branches.length}"
     | none => some "none"
+  | ["c09.pow_refuses"] =>
+    some (match Generated.powRefuses with | some e => s!"ok\t{e.str}" | none => "ok\tnone")
   | ["c09.names"] => some ("ok\t" ++ ";".intercalate (Generated.equivalences.map (·.name)))
   -- the formula a branch denotes: copy = returned value, inplace = final buffer (alias reading),
   -- inplace-ssa = final buffer (returned objects are values of their own)
@@ -80,11 +82,10 @@ def stepC09 (st : DriverState) (fields : List String) : Option String :=
       | .error e => some s!"err\t{e.str}"
     | none => some "bad-op"
   -- the numbers: mode, equivalence or `-`, input unit (5 fields), target unit (5 fields),
-  -- value bits, bits of the input unit's own simplification coefficient, then `name=bits`
-  -- keyword arguments separated by `;` (or empty)
-  | ["c09.convert", mode, eq, s1, o1, d1, c1, f1, s2, o2, d2, c2, f2, x, us, kw] =>
-    match parseMode mode, parseUnitV s1 o1 d1 c1 f1, parseUnitV s2 o2 d2 c2 f2, fb x, fb us with
-    | some m, some u, some tg, some xv, some uself =>
+  -- value bits, then `name=bits` keyword arguments separated by `;` (or empty)
+  | ["c09.convert", mode, eq, s1, o1, d1, c1, f1, s2, o2, d2, c2, f2, x, kw] =>
+    match parseMode mode, parseUnitV s1 o1 d1 c1 f1, parseUnitV s2 o2 d2 c2 f2, fb x with
+    | some m, some u, some tg, some xv =>
       let kws : Option (List (String × Float)) :=
         if kw == "" then some [] else
         (kw.splitOn ";").mapM (fun item => match item.splitOn "=" with
@@ -93,11 +94,11 @@ def stepC09 (st : DriverState) (fields : List String) : Option String :=
       match kws with
       | none => some "bad-op"
       | some kws =>
-        match convertValue st.pre (st.luts[0]!) Generated.equivalences constsFloat kws m u uself xv tg
+        match convertValue Generated.powRefuses st.pre (st.luts[0]!) Generated.equivalences constsFloat kws m u xv tg
             (if eq == "-" then none else some eq) with
         | .ok v => some s!"ok\t{bitsStr v}"
         | .error e => some s!"err\t{e.str}"
-    | _, _, _, _, _ => some "bad-op"
+    | _, _, _, _ => some "bad-op"
   | _ => none
 
 def opsC09 : Handler := fun st fields =>
